@@ -13,7 +13,7 @@ ENG_NOTE = ('Serial transactions in one process (tx_lock) - statement-level race
 ENG_TECH = 'TLA+ property formulas (EngineProps) evaluated by TLC on every step of recorded runs of the real engine under controlled schedules'
 ENG_MODEL = (' Model level: MistralEngine.tla (one action per atomic step of the code: start, post-commit operations, message deliveries, '
              'scheduler jobs of BOTH scheduler implementations (default: capture / invoke / delete per job; legacy: poll pass), the pause command and '
-             'its backlog, operator pause / resume / stop, redeliveries, retry / wait-before / wait-after / timeout policies, clock) is model-checked exhaustively by TLC on the '
+             'its backlog, operator pause / resume / stop, redeliveries, retry / wait-before / wait-after / timeout policies, with-items tasks (count / capacity accounting, concurrency, accepted flags, one accounting job per reported item), clock) is model-checked exhaustively by TLC on the '
              'shape catalogue with the stated operator / redelivery budgets, the property formulas holding modulo the named known-finding '
              'situations; every recorded run inside the model\'s scope is validated strictly as a behaviour of the model (EngineTrace.tla, '
              'unlogged choices inferred by TLC) - a run that is not accepted is reported as DIVERGENCE; in the other direction TLC-simulated behaviours of the model and its '
@@ -96,8 +96,10 @@ CHECKS = {
     'C07': ('engine', 'model_checking',
             'with-items tasks over 0..4 items (actions and sub-workflows, concurrency absent/1..n+1, per-item outcomes, rerun with reset '
             'on/off) under schedules interleaving item completions with the keyed accounting jobs; TLC judges WithinLimit, OnePerIndex, '
-            'CompleteAfterAll, WithItemsFinalState on every step.',
-            ENG_NOTE, ENG_TECH, '5, 7-C07'),
+            'CompleteAfterAll, WithItemsFinalState on every step.' + ENG_MODEL + ' Budgets: the with-items catalogue (0 / 2 / 3 items, concurrency absent / 1 / 2 / 3, a failing item, a with-items join, '
+            'two with-items tasks into a join) under both schedulers, all orders of item results and accounting jobs (OnePerIndexM, WithinLimitM, CompleteAfterAllM, NoHangM, liveness on three shapes); two operator commands '
+            '(pause / resume / stop) at any two points and one redelivery on the small shapes (thorough: on every 2- and 3-item shape). Three reachability probes reproduce the known with-items findings KF-C07-7..11 on the real engine.',
+            ENG_NOTE, ENG_TECH_M, '0.3, 0.4c, 5, 7-C07'),
     'C09': ('engine', 'model_checking',
             'Programs whose tasks call sub-workflows (plain and with-items callers, child outcomes, cancel and pause/resume midway); TLC '
             'judges ParentMirrorsChild, RootAndNamespace, TreeCancelled, StartOnce on every step.',
